@@ -4,13 +4,13 @@ Property theorems only; helper lemmas live in `Scalibr.Proofs.Trace`.
 Unbounded: any number of layers, any per-file sequence of keep / write / symlink / delete, any
 packages, any cancellation point of the context.
 
-On the hypotheses (audit item "no `_partial` suffix"): the only hypothesis the attribution theorems
-carry is `hp : the package is in the final view` (and, for `C05_cache_transparent`/`C05_populate`,
-validity of the cache they START from, which `St.empty` satisfies). `hp` is the property's own
-quantifier — "every REPORTED package": `ScanContainer` reports exactly the packages extracted from the
-final view — not a restriction of the inputs, so the theorems are not `_partial`. The earlier hidden
-assumption "extraction never fails" is gone: the context may be cancelled at any point (`cancelAt`),
-and the theorems say what is reported then.
+On the hypotheses: `hp : the package is in the final view` is the property's own quantifier ("every REPORTED
+package"), and the cache the theorems start from has to be valid (`St.empty` is). The third one is real and the
+theorems that carry it are named `_partial`: `hd : diff i = inDiff h i` — `filesExistInLayer` (does the layer's own
+diff have an entry at the location?) says "yes" exactly when the layer changed what the extractor reports there. The
+model takes that observation as an input of its own (`diff`); `trace`, used by the hypothesis-free theorems, fixes it to
+`inDiff`. Where `hd` fails the unchanged code attributes wrongly: `C05_symlink_target_rewritten` (known finding
+C05/location-content-depends-on-other-paths). The context may be cancelled at any point (`cancelAt`).
 
 On the view abstraction (audit item "private per-file abstraction"): the specification has its OWN
 reading of "the package is in the image-up-to-layer view" (`Spec.present`/`lastTouch`: the latest layer
@@ -36,11 +36,12 @@ theorem C05_spec_view (h : History) (i : Nat) (p : Pkg) :
 carries the layer that introduced it — the least `L` such that the package is present in every view
 `L … last` — or, when the context was cancelled before its trace finished, no layer details at all.
 It is never attributed to a wrong layer. -/
-theorem C05_origin_or_unset (img : Nat → History) (cancelAt : Option Nat) (f : Nat) (p : Pkg) (s : St)
+theorem C05_origin_or_unset_partial (img : Nat → History) (diff : Nat → Bool) (cancelAt : Option Nat) (f : Nat) (p : Pkg) (s : St)
+    (hd : ∀ i, diff i = inDiff (img f) i)
     (hc : CacheOK img s.cache) (hp : present (img f) ((img f).length - 1) p = true) :
-    (∃ L, (traceC (img f) cancelAt f p s).1 = some L ∧ IsOrigin (img f) p L) ∨
-    ((traceC (img f) cancelAt f p s).1 = none ∧ ∃ k, cancelAt = some k ∧ k ≤ (traceC (img f) cancelAt f p s).2.runs) := by
-  have h := (traceC_traced img cancelAt f p s hc hp).1
+    (∃ L, (traceC (img f) diff cancelAt f p s).1 = some L ∧ IsOrigin (img f) p L) ∨
+    ((traceC (img f) diff cancelAt f p s).1 = none ∧ ∃ k, cancelAt = some k ∧ k ≤ (traceC (img f) diff cancelAt f p s).2.runs) := by
+  have h := (traceC_traced img diff cancelAt f p s hd hc hp).1
   rcases h with h | ⟨h1, h2⟩
   · exact Or.inl h
   · refine Or.inr ⟨h1, ?_⟩
@@ -49,11 +50,24 @@ theorem C05_origin_or_unset (img : Nat → History) (cancelAt : Option Nat) (f :
     | none => rw [hca] at h2; cases h2
     | some k => rw [hca] at h2; exact ⟨k, rfl, by simpa using h2⟩
 
+/-- FULL STATEMENT (false for the unchanged code, known finding C05/location-content-depends-on-other-paths):
+`C05_origin_or_unset_partial` for EVERY `diff`, i.e. whatever `filesExistInLayer` answers. The hypothesis `hd` says that
+the layer's own diff has an entry at the location exactly when the layer changes what the extractor reports there; it
+holds when layers touch the location only by writing / linking / deleting that very path. It fails — and the loop then
+skips a layer that did change the packages — when the reported packages depend on another path: the location is a
+symlink whose TARGET a layer rewrites (P2), or the extractor reads a second file (os/dpkg: etc/os-release in the PURL, P3).
+Witness: link.txt -> data/list; L0 writes both (foo), L1 rewrites data/list (foo, bar), L2 touches neither: bar is
+attributed to layer 2 instead of 1. -/
+theorem C05_symlink_target_rewritten :
+    let h : History := [.link [1], .link [1, 2], .keep]     -- what the views show at link.txt
+    let diff : Nat → Bool := fun i => i == 0                  -- only layer 0 has an entry AT link.txt
+    (traceC h diff none 0 2 St.empty).1 = some 2 ∧ originSpec h 2 = some 1 := by decide
+
 /-- Without cancellation the backwards loop (with the "file not in this layer's diff" skip) returns THE
 origin. -/
 theorem C05_origin (h : History) (p : Pkg) (hp : present h (h.length - 1) p = true) :
     ∃ L, trace h p = some L ∧ IsOrigin h p L := by
-  have := C05_origin_or_unset (fun _ => h) none 0 p St.empty (cacheOK_empty _) hp
+  have := C05_origin_or_unset_partial (fun _ => h) (inDiff h) none 0 p St.empty (fun _ => rfl) (cacheOK_empty _) hp
   rcases this with h1 | ⟨_, k, hk, _⟩
   · exact h1
   · cases hk
@@ -70,8 +84,9 @@ the answer without cancellation is the cache-free one, and the cache stays valid
 (location, layer) only — hence the standing modelling assumption of one extractor per file. -/
 theorem C05_cache_transparent (img : Nat → History) (f : Nat) (p : Pkg) (s : St) (hc : CacheOK img s.cache)
     (hp : present (img f) ((img f).length - 1) p = true) :
-    (traceC (img f) none f p s).1 = trace (img f) p ∧ CacheOK img (traceC (img f) none f p s).2.cache := by
-  have h := traceC_traced img none f p s hc hp
+    (traceC (img f) (inDiff (img f)) none f p s).1 = trace (img f) p ∧
+    CacheOK img (traceC (img f) (inDiff (img f)) none f p s).2.cache := by
+  have h := traceC_traced img (inDiff (img f)) none f p s (fun _ => rfl) hc hp
   refine ⟨?_, h.2⟩
   obtain ⟨L0, h0, ho0⟩ := C05_origin (img f) p hp
   rcases h.1 with ⟨L, h1, ho⟩ | ⟨_, h2⟩
@@ -81,17 +96,18 @@ theorem C05_cache_transparent (img : Nat → History) (f : Nat) (p : Pkg) (s : S
 /-- The whole `for _, pkg := range inventory.Packages` loop, sharing one cache and one context across
 packages and files: every package gets its cache-free origin, or nothing if the context was cancelled
 before its trace finished. -/
-theorem C05_populate (img : Nat → History) (cancelAt : Option Nat) :
+theorem C05_populate_partial (img : Nat → History) (diff : Nat → Nat → Bool) (cancelAt : Option Nat)
+    (hd : ∀ f i, diff f i = inDiff (img f) i) :
     ∀ (pkgs : List (Nat × Pkg)) (s : St), CacheOK img s.cache →
       (∀ fp ∈ pkgs, present (img fp.1) ((img fp.1).length - 1) fp.2 = true) →
-      (populate img cancelAt pkgs s).length = pkgs.length ∧
-      ∀ x ∈ (populate img cancelAt pkgs s).zip pkgs,
+      (populate img diff cancelAt pkgs s).length = pkgs.length ∧
+      ∀ x ∈ (populate img diff cancelAt pkgs s).zip pkgs,
         x.1 = trace (img x.2.1) x.2.2 ∨ (x.1 = none ∧ cancelAt ≠ none)
   | [], _, _, _ => by simp [populate]
   | (f, p) :: rest, s, hc, hp => by
     have hpf := hp (f, p) (by simp)
-    have h := traceC_traced img cancelAt f p s hc hpf
-    have ih := C05_populate img cancelAt rest (traceC (img f) cancelAt f p s).2 h.2
+    have h := traceC_traced img (diff f) cancelAt f p s (hd f) hc hpf
+    have ih := C05_populate_partial img diff cancelAt hd rest (traceC (img f) (diff f) cancelAt f p s).2 h.2
       (fun fp hfp => hp fp (by simp [hfp]))
     simp only [populate, List.length_cons, List.zip_cons_cons, List.mem_cons]
     refine ⟨by rw [ih.1], ?_⟩
@@ -108,7 +124,7 @@ theorem C05_populate (img : Nat → History) (cancelAt : Option Nat) :
 theorem C05_populate_complete (img : Nat → History) :
     ∀ (pkgs : List (Nat × Pkg)) (s : St), CacheOK img s.cache →
       (∀ fp ∈ pkgs, present (img fp.1) ((img fp.1).length - 1) fp.2 = true) →
-      populate img none pkgs s = pkgs.map (fun fp => trace (img fp.1) fp.2)
+      populate img (fun f => inDiff (img f)) none pkgs s = pkgs.map (fun fp => trace (img fp.1) fp.2)
   | [], _, _, _ => rfl
   | (f, p) :: rest, s, hc, hp => by
     have h1 := C05_cache_transparent img f p s hc (hp (f, p) (by simp))
@@ -276,14 +292,14 @@ example : present exH (exH.length - 1) 2 = true := by decide
 example : trace exH 2 = some 5 ∧ originSpec exH 2 = some 5 := by decide
 example : trace [.write [1, 2], .keep, .write [2, 3], .keep] 2 = some 0 ∧ trace [.write [1, 2], .keep, .write [2, 3], .keep] 3 = some 2 := by decide
 -- a valid, non-empty cache (what tracing package 2 leaves behind) gives the same answer for package 3
-example : (traceC [.write [1, 2], .keep, .write [2, 3], .keep] none 0 3
-            (traceC [.write [1, 2], .keep, .write [2, 3], .keep] none 0 2 St.empty).2).1 = some 2 := by decide
+example : (traceC [.write [1, 2], .keep, .write [2, 3], .keep] (inDiff [.write [1, 2], .keep, .write [2, 3], .keep]) none 0 3
+            (traceC [.write [1, 2], .keep, .write [2, 3], .keep] (inDiff [.write [1, 2], .keep, .write [2, 3], .keep]) none 0 2 St.empty).2).1 = some 2 := by decide
 -- regression (fix 32646227, was: attributed to layer 0): L0 "p2", L1 "p1 p3", L2 "p1 p2", context
 -- cancelled after the first re-extraction: package 1 gets no layer details, package 2 (cache hit) is right
-example : populate (fun _ => [.write [2], .write [1, 3], .write [1, 2]]) (some 1) [(0, 1), (0, 2)] St.empty
-    = [none, some 2] := by decide
-example : populate (fun _ => [.write [2], .write [1, 3], .write [1, 2]]) none [(0, 1), (0, 2)] St.empty
-    = [some 1, some 2] := by decide
+example : populate (fun _ => [.write [2], .write [1, 3], .write [1, 2]]) (fun _ => inDiff [.write [2], .write [1, 3], .write [1, 2]])
+    (some 1) [(0, 1), (0, 2)] St.empty = [none, some 2] := by decide
+example : populate (fun _ => [.write [2], .write [1, 3], .write [1, 2]]) (fun _ => inDiff [.write [2], .write [1, 3], .write [1, 2]])
+    none [(0, 1), (0, 2)] St.empty = [some 1, some 2] := by decide
 -- regression (fix ca0187b0, was: layer 0): the location is replaced by a symlink to another list in
 -- layer 1 and restored in layer 2: package 1 is absent from view 1, so it belongs to layer 2
 example : trace [.write [1], .link [2], .write [1]] 1 = some 2 ∧ originSpec [.write [1], .link [2], .write [1]] 1 = some 2 := by decide
